@@ -26,40 +26,47 @@ class C05(Check):
     lean_targets = ["drv_c05"]
     driver = "drv_c05"
     theorems = ["Pox.C05.reachable_inv", "Pox.C05.sorted_inv", "Pox.C05.delivery_exact", "Pox.C05.delivery_order", "Pox.C05.reentrant_safe",
-                "Pox.C05.once_removed", "Pox.C05.unsubscribe_exact", "Pox.C05.noerrors_partial", "Pox.C05.noerrors_defect",
-                "Pox.C05.undeclared_rejected", "Pox.C05.weak_gone", "Pox.C05.once_raises_defect"]
+                "Pox.C05.once_removed", "Pox.C05.unsubscribe_exact", "Pox.C05.sources_independent", "Pox.C05.noerrors_partial",
+                "Pox.C05.noerrors_defect", "Pox.C05.undeclared_rejected", "Pox.C05.weak_gone", "Pox.C05.lazy_init",
+                "Pox.C05.once_raises_defect", "Pox.Revent.drive_eq_run"]
     R = "pox/lib/revent/revent.py"       # function bodies only (a `def` line runs at import time, not in a case)
     anchors = [(R, 222, 229), (R, 241, 250), (R, 260, 317), (R, 329, 329), (R, 340, 382), (R, 391, 392), (R, 401, 410),
                (R, 439, 476), (R, 487, 487), (R, 499, 499), (R, 505, 505), (R, 531, 565), (R, 582, 586), (R, 591, 594),
                (R, 597, 600), ("pox/core.py", 139, 147)]
     trusted_base = ["model Model/Revent.lean hand-written from EventMixin (raiseEvent*, addListener*, removeListener, autoBindEvents, "
-                    "CallProxy) as repaired by fixes/D01 and fixes/D28; tied to the code by this correspondence run",
+                    "CallProxy, lazy _eventMixin_init, event.halt) as repaired by D01 and D28; tied to the code by this correspondence run",
                     "harness: scripted handlers, event ids normalised by the value of revent._nextEventID at case start, "
                     "exception classes mapped to {revent, key, other}"]
-    assumptions = ["handlers halt an event through their return value, not by assigning event.halt themselves; Event._invoke is not overridden",
+    assumptions = ["the same event *instance* is not raised twice (each raise gets a fresh event object); Event._invoke is not overridden",
                    "'never invoked again' is read as 'not invoked by any raise that starts after the removal': a delivery already in flight "
                    "keeps the snapshot it took (the statement's 'every handler subscribed at that moment is invoked exactly once' demands it)",
+                   "a handler 'halts the event' by the code's own protocol: a halting return value, or event.halt set while some handler "
+                   "answers something other than None (a handler that sets event.halt and returns None does not stop the delivery: revent.py:299 "
+                   "`continue` skips the test at 315) -- modelled as the code does it, reported as an observation",
                    "raiseEvent is given an Event instance or an Event subclass; the exception hook handleEventException does not raise",
                    "declared event classes have distinct __name__s (by-name subscription is otherwise dict-order dependent)",
                    "an owner of weak handlers is only collected while none of its handlers sits in an in-flight snapshot (drop is a top-level op)",
-                   "a single source per history (the only cross-source state is the global event-id counter); single-threaded"]
+                   "single-threaded; sources interact only through handlers and the global event-id counter"]
     design_ref = "DESIGN.md §5 C05"
     technique = ("Lean 4 proof (invariants of a small-step machine with an explicit stack of delivery frames, for all handler behaviours and "
                  "all histories) + differential correspondence of the compiled model against real EventMixin objects with scripted handlers "
                  "+ independent Python oracle of the property over the observed invocation log")
     level_text = ("Theorems reachable_inv / sorted_inv / delivery_exact / delivery_order / reentrant_safe / once_removed / unsubscribe_exact / "
-                  "noerrors_partial / undeclared_rejected / weak_gone over the model of EventMixin: for every operation history, every handler "
-                  "behaviour (including handlers that subscribe, unsubscribe and raise re-entrantly, to any depth) and every number of machine "
-                  "steps. noerrors_defect and once_raises_defect are kernel-checked witnesses of the two open findings D24 / D51 "
-                  "(the full statements noerrors_full / once_strict are kept as defs).")
+                  "sources_independent / noerrors_partial / undeclared_rejected / weak_gone / lazy_init over the model of EventMixin: for any number of "
+                  "sources sharing the event-id counter, every operation history, every handler behaviour (handlers that subscribe, unsubscribe and "
+                  "raise re-entrantly on any source to any depth, assign event.halt, return any value or raise) and every number of machine steps. "
+                  "noerrors_defect and once_raises_defect are kernel-checked witnesses of the two open findings D24 / D60 (the full statements "
+                  "noerrors_full / once_strict are kept as defs). drive_eq_run: the driver's early-exit loop computes `run`.")
     level_note = ("Trusted: Lean kernel, axioms propext/Classical.choice/Quot.sound, the hand-written model Model/Revent.lean (which mirrors the code "
                   "after fixes D01 and D28) and this harness. The theorems are about the model; the run ties it to the code on exhaustive small "
-                  "histories and random histories of up to 80 operations with re-entrant scripts.")
-    rule = ("case = operation history (subscribe with priority/once/weak/by-name/autoBind, unsubscribe in all 5 argument forms, raise in instance/"
-            "class form with and without error suppression, clear, owner collection) + per-handler scripts of nested actions and return values; "
-            "corpus = hand-written seeds + every history of <= 3 ops (with at least one subscribe and one raise) over a 14-op alphabet under 8 "
-            "script profiles; generated = random histories of 3..80 ops with random scripts (thorough: + every 4-op history under one profile); "
-            "non-trivial = some delivery invoked >= 2 handlers or a handler performed a nested action")
+                  "histories and random histories of up to 80 operations on one or two sources with re-entrant, cross-source scripts. Event types "
+                  "are opaque identities in the model; the harness realises them as a class hierarchy (Ev3(Ev0), Ev4(Ev2), Ev5(Ev3)).")
+    rule = ("case = 1-2 sources (declared set over 6 event classes with inheritance, accept-all, lazily initialised) + operation history (subscribe "
+            "with priority/once/weak/by-name/autoBind, unsubscribe in all 5 argument forms, raise in instance/class form with and without error "
+            "suppression, clear, count, owner collection; every op names its source) + per-handler scripts (event.halt assignment, nested actions "
+            "on any source, return value); corpus = hand-written seeds + every history of <= 3 ops (at least one subscribe and one raise) over a "
+            "14-op alphabet under 8 script profiles; generated = random histories of 3..80 ops with random scripts (thorough: + every 4-op history "
+            "under one profile); non-trivial = some delivery invoked >= 2 handlers or a handler performed a nested action")
     coverage_cases = 400
 
     # ------------------------------------------------------------------ setup
